@@ -7,8 +7,10 @@ Property theorems about `Model/Mem.lean`.
 * byte store: read-after-write, frame (`read_write`, `write_frame`, `write_keeps_bytes`)
 * every byte a read (or the old value of an AMO) returns is the byte stored by the latest
   earlier-processed request covering it, else the initial image (`read_latest`); the same for the
-  final image (`image_latest`); what a write / an AMO stores (`write_stores`, `amo_spec`, `amo_table`,
-  `sint_twos_complement`)
+  final image (`image_latest`); what a write / an AMO stores (`write_stores`, `amo_spec`, `amo_old_new`,
+  `amo_low_bytes_only`, `amo_full_width`, `amo_table`, `sint_twos_complement`): an AMO has a byte count like a read or
+  a write (`len`, 0 = full width), works on the low `len` bytes of the data field at width `8·len` (signed min / max at
+  that width) and answers the old `len` bytes zero-extended
 * the three delay pipes are FIFO for every delay and every history of ticks / enqueue and dequeue
   attempts / back-pressure (`deq_pipe_fifo`, `send_pipe_fifo`, `inelastic_pipe_fifo`)
 * timing independence of the two memory systems (`cl_timing_independent`, `rtl_timing_independent`
@@ -102,20 +104,61 @@ theorem bounded_store (size : Nat) (l : List Req) (m m' : Store)
 
 /-! ## atomic operations -/
 
-/-- an AMO returns the old value and leaves `op(old, data) mod 2^(8k)` in memory, touching nothing
-outside its `k` bytes; the event recorded for it in `effects` is exactly that store -/
+/-- an AMO of `k` bytes (`k = len`, or the full data width `nb` of the request's message class when `len = 0`; a
+sub-word AMO is `0 < len < nb`) operates on the low `k` bytes `arg` of the data field at width `8k`: it answers the old
+`k` bytes, leaves `op(old, arg) mod 2^(8k)` in memory — byte `j` of it at `addr + j` —, touches nothing outside its
+`k` bytes, and the event recorded for it in `effects` is exactly that store -/
 theorem amo_spec (r : Req) (op : AmoOp) (m : Store) (h : r.kind = .amo op) :
     let k := nbytes r.nb r.len
     let old := readLE m r.addr k
+    let arg := r.data % 2 ^ (8 * k)
     (service r m).1 = ⟨op.code, r.opq, 0, r.len, old⟩ ∧
-    readLE (service r m).2 r.addr k = amoFun (8 * k) op old r.data % 2 ^ (8 * k) ∧
+    readLE (service r m).2 r.addr k = amoFun (8 * k) op old arg % 2 ^ (8 * k) ∧
+    (∀ j, j < k → (service r m).2 (r.addr + j) = (amoFun (8 * k) op old arg / 256 ^ j) % 256) ∧
     (∀ b, (b < r.addr ∨ r.addr + k ≤ b) → (service r m).2 b = m b) ∧
-    effect r m = some ⟨r.addr, k, amoFun (8 * k) op old r.data⟩ := by
-  refine ⟨?_, ?_, ?_, ?_⟩
+    effect r m = some ⟨r.addr, k, amoFun (8 * k) op old arg⟩ := by
+  refine ⟨?_, ?_, ?_, ?_, ?_⟩
   · simp [service, h]
   · simp only [service, h]; rw [PV.Mem.read_write, pow256]
+  · intro j hj
+    simp only [service, h]
+    rw [writeLE_byte, if_pos (by omega)]
+    congr 3; omega
   · intro b hb; simp only [service, h]; exact PV.Mem.write_frame _ _ _ _ _ hb
   · simp [effect, h]
+
+/-- on a byte store the answer of an AMO is what a read of the same `len` at the same address answers (the old `k`
+bytes, zero-extended: it is below `2^(8k)`), and the value written back is `op(old, arg)` itself: every `AMO_FUNS`
+entry maps two `8k`-bit operands to an `8k`-bit value, no truncation takes place -/
+theorem amo_old_new (r : Req) (op : AmoOp) (m : Store) (h : r.kind = .amo op) (hm : Bytes m) :
+    let k := nbytes r.nb r.len
+    let old := readLE m r.addr k
+    let arg := r.data % 2 ^ (8 * k)
+    (service r m).1.data = (service { r with kind := .read } m).1.data ∧
+    (service r m).1.data = old ∧ old < 2 ^ (8 * k) ∧
+    (∀ j, j < k → (old / 256 ^ j) % 256 = m (r.addr + j)) ∧
+    amoFun (8 * k) op old arg < 2 ^ (8 * k) ∧
+    readLE (service r m).2 r.addr k = amoFun (8 * k) op old arg := by
+  have hold : readLE m r.addr (nbytes r.nb r.len) < 2 ^ (8 * nbytes r.nb r.len) := by
+    rw [pow256]; exact readLE_lt _ _ _ hm
+  have hlt := amoFun_lt (8 * nbytes r.nb r.len) op _ (r.data % 2 ^ (8 * nbytes r.nb r.len)) hold
+    (Nat.mod_lt _ (Nat.two_pow_pos _))
+  refine ⟨by simp [service, h], by simp [service, h], hold, fun j hj => readLE_byte _ _ _ _ hm hj, hlt, ?_⟩
+  rw [(amo_spec r op m h).2.1, Nat.mod_eq_of_lt hlt]
+
+/-- only the low `k` bytes of the data field of an AMO matter -/
+theorem amo_low_bytes_only (r : Req) (op : AmoOp) (m : Store) (h : r.kind = .amo op) (d d' : Nat)
+    (hd : d % 2 ^ (8 * nbytes r.nb r.len) = d' % 2 ^ (8 * nbytes r.nb r.len)) :
+    service { r with data := d } m = service { r with data := d' } m := by
+  simp only [service, h, hd]
+
+/-- the full-width AMO is the special case `len = 0` (also `len = nb`, which no message can express): on a well-formed
+message (`data` fits the `8·nb` bits of its field) the operand is the whole data field and the width is `8·nb` -/
+theorem amo_full_width (r : Req) (op : AmoOp) (m : Store) (h : r.kind = .amo op) (hl : r.len = 0)
+    (hd : r.data < 2 ^ (8 * r.nb)) :
+    let old := readLE m r.addr r.nb
+    service r m = (⟨op.code, r.opq, 0, 0, old⟩, writeLE m r.addr r.nb (amoFun (8 * r.nb) op old r.data)) := by
+  simp only [service, h, hl, nbytes, if_true, Nat.mod_eq_of_lt hd]
 
 /-- the nine `AMO_FUNS` on `w`-bit operands -/
 theorem amo_table (w m a : Nat) :
@@ -332,6 +375,27 @@ example :
                       ⟨.read, 3, 32, 0, 0, 16⟩] (fun _ => 0)
     x.1 = [⟨1, 1, 0, 0, 0⟩, ⟨0, 2, 0, 0, 0x01234567⟩, ⟨0, 3, 0, 0, 0x0123456789abcdeffedcba9876543210⟩] ∧
     x.2 47 = 0x01 ∧ x.2 48 = 0 := by decide +kernel
+
+/-- sub-word AMOs on a 4-byte port. The word at 16 holds 0x1234beef: positive as a 32-bit value, its low half 0xbeef
+negative as a 16-bit value. A 2-byte AMO_MAX with data 0xffff0001 works on (0xbeef, 0x0001) at width 16: signed max is 1
+(a 32-bit signed max of 0x1234beef and 0xffff0001 would have kept the word), the answer is the old half 0xbeef
+zero-extended, bytes 18 / 19 stay. Then a 1-byte AMO_ADD of 0x1ff at 17 adds 0xff to 0x00 without a carry into byte 18,
+a 2-byte AMO_MIN at 18 compares 0x1234 with 0x8000 (negative at 16 bits), a 3-byte AMO_MINU, and a full-width AMO_MIN
+(`len = 0`) sees the 32-bit sign again. -/
+example :
+    let x := seqSpec [⟨.write, 1, 16, 0, 0x1234beef, 4⟩, ⟨.amo .max, 2, 16, 2, 0xffff0001, 4⟩,
+                      ⟨.amo .add, 3, 17, 1, 0x1ff, 4⟩, ⟨.amo .min, 4, 18, 2, 0x77778000, 4⟩,
+                      ⟨.amo .minu, 5, 16, 3, 0xff000002, 4⟩, ⟨.amo .min, 6, 16, 0, 5, 4⟩, ⟨.read, 7, 16, 0, 0, 4⟩]
+              (fun _ => 0)
+    x.1 = [⟨1, 1, 0, 0, 0⟩, ⟨9, 2, 0, 2, 0xbeef⟩, ⟨3, 3, 0, 1, 0x00⟩, ⟨7, 4, 0, 2, 0x1234⟩, ⟨8, 5, 0, 3, 0x00ff01⟩,
+           ⟨7, 6, 0, 0, 0x80000002⟩, ⟨0, 7, 0, 0, 0x80000002⟩] ∧
+    x.2 20 = 0 ∧ x.2 15 = 0 := by decide +kernel
+
+/-- the same 16-bit operands under the two readings of the sign: signed at the sub-word width against unsigned /
+against the 32-bit reading of the zero-extended values -/
+example : amoFun 16 .max 0xbeef 1 = 1 ∧ amoFun 16 .maxu 0xbeef 1 = 0xbeef ∧ amoFun 32 .max 0xbeef 1 = 0xbeef ∧
+    amoFun 16 .min 0x1234 0x8000 = 0x8000 ∧ amoFun 32 .min 0x1234 0x8000 = 0x1234 ∧
+    amoFun 8 .add 0xbe 0xff = 0xbd := by decide
 
 example : amoFun 32 .min 0x80000000 1 = 0x80000000 ∧ amoFun 32 .minu 0x80000000 1 = 1 ∧
     amoFun 32 .max 0xffffffff 1 = 1 ∧ amoFun 32 .maxu 0xffffffff 1 = 0xffffffff ∧
